@@ -111,6 +111,12 @@ def r1(ctx):
             i_ = e6.elementwise_sequence(E_, o_[1]) if o_ else None
             good = (o_ is not None and i_ is not None and e6.range_of(o_[0]) == (("lit", "0"), LEN_) and e6.range_of(i_[0]) == (("lit", "0"), ("p", "loops"))
                     and i_[1] == e6.mk_bin("Add", e6.mk_bin("Mul", i_[2], LEN_), o_[2]))
+            if not good and o_ is not None and e6.range_of(o_[0]) == (("lit", "0"), LEN_):
+                # the group of l as the stepped range l, l + length, .. below loops * length: the same `loops` positions in the same order (l < length)
+                cm_ = e6.is_call(o_[1], "collect", 1)
+                sb_ = e6.is_call(cm_[0], "step_by", 2) if cm_ else None
+                rg_ = e6.range_of(sb_[0]) if sb_ else None
+                good = (rg_ is not None and rg_[0] == o_[2] and e6.poly(rg_[1]) == e6.poly(e6.mk_bin("Mul", ("p", "loops"), LEN_)) and e6.poly(sb_[1]) == e6.poly(LEN_))
             if not good:
                 ok2 = False
                 detail = "coupled = %s" % (e6.show(cv, 3)[:80] if cv is not None else "?")
